@@ -215,6 +215,8 @@ Definition run_with (k : @mval F -> @env F -> @rv F) (g : @mexpr F) (en0 : @env 
 Definition run_val := run_with (fun v _ => rv_of_m (Some v)).
 (* `&mut self` functions returning (): the receiver afterwards *)
 Definition run_self := run_with (fun _ en => rv_of_m (lookup "self" en)).
+(* functions returning () *)
+Definition run_unit := run_with (fun v _ => match v with MTup0 => RVal VUnit | _ => RType end).
 (* TryFrom: Ok(x) / Err(()) as the table's option *)
 Definition run_try := run_with (fun v _ => match v with
                                            | MOk w => rv_of_m (Some (MSome w))
@@ -239,6 +241,14 @@ Ltac split_ops :=
 Ltac ops_norm :=
   lazy -[isub iadd imul idiv ineg assert_ok assert_not_ok q_of_time q_of_dint eq_assume_true eq_assume_false
          Z.gtb Z.ltb Z.geb Z.max Z.min].
+(* the unit algebra: the configuration is analysed first (the bodies are selected by the dimension-check cfg), units are opened
+   into their exponents, comparisons of exponents are analysed by cases *)
+Ltac unit_tac c :=
+  destruct c as [[] ?]; intros; split_ops; repeat match goal with x : unit_ |- _ => destruct x end;
+  unfold run_val, run_self, run_unit, run_try, run_with; cbn;
+  repeat (progress unfold uadd, usub, assert_ok, assert_not_ok, eq_assume_true, eq_assume_false, umul, udiv, unew, ueqb, unit_of_pd, bind; cbn [chk mm sec]);
+  cbn;
+  repeat (match goal with |- context [Z.eqb ?a ?b] => destruct (Z.eqb a b) end; cbn); try reflexivity.
 Ltac ops_tac :=
   intros; split_ops; unfold run_val, run_self, run_try, run_setter, run_with;
   repeat (ops_norm; mr_split); ops_norm; try reflexivity.
